@@ -531,7 +531,7 @@ def c17_8(ctx, ss):
     # from_matched_line: particle lookup by name, daughters converted recursively (all of them)
     mf_, mflow = fn(ss, ACHAIN, "AmplitudeChain.from_matched_line")
     sp = [x for x in pf.iter_stmts(mf_.node.body) if isinstance(x, ast.Assign) and txt(x.targets[0]) in ("mat['particle']", 'mat["particle"]')]
-    okp = len(sp) == 1 and txt(sp[0].value) in ("particle_from_string_name(mat['name'])",)
+    okp = len(sp) == 1 and mflow.text(sp[0].value) in ("particle_from_string_name(mat['name'])",)
     (ctx.holds if okp else ctx.violation)("C17.8", ckey(mf_, None, "particle"), where(mf_, mf_.node), "particle = particle_from_string_name(name)" if okp else "the particle is not looked up from the line's name")
     sd = [x for x in pf.iter_stmts(mf_.node.body) if isinstance(x, ast.Assign) and txt(x.targets[0]) in ("mat['daughters']",)]
     okd = len(sd) == 1 and txt(sd[0].value) == canon("[cls.from_matched_line(d) for d in mat['daughters']]") and \
